@@ -174,11 +174,17 @@ func (g *engine) attribute(h History, o *Outcome, draws int) {
 	}
 }
 
+// sameTargetOps: two connections to one back-end (equal target string, equal
+// descriptors) are still two registrations.
+var sameTargetOps = []Op{{"RegConn", "b3"}, {"RegConn", "b3x"}, {"DropConn", "b3"}, {"DropConn", "b3x"}, {"DropConn", "unknown"}}
+
+var extOps = append(append([]Op{}, allOps...), Op{"RegConn", "b3x"}, Op{"DropConn", "b3x"})
+
 func randomHistory(rng *rand.Rand, minLen, maxLen int) History {
 	n := minLen + rng.Intn(maxLen-minLen+1)
 	h := make(History, n)
 	for i := range h {
-		h[i] = allOps[rng.Intn(len(allOps))]
+		h[i] = extOps[rng.Intn(len(extOps))]
 	}
 	return h
 }
@@ -245,6 +251,15 @@ func RunC11(r *mon.Run) {
 			ops = allOps
 		}
 		hs := enumerate(ops, L)
+		total += len(hs)
+		outs := g.runAll(hs, Draws)
+		for i, h := range hs {
+			g.account(h, outs[i])
+			g.attribute(h, outs[i], Draws)
+		}
+	}
+	for L := 2; L <= 4; L++ {
+		hs := enumerate(sameTargetOps, L)
 		total += len(hs)
 		outs := g.runAll(hs, Draws)
 		for i, h := range hs {
